@@ -38,8 +38,23 @@ def schema():
             out.add((nsmap[p], l))
     return sorted(out)
 
+def redirect_exclusions():
+    """the reference attributes build_caches does NOT redirect after a rename: (attributes, (element, attribute) pairs)"""
+    import odf.opendocument as O
+    ex = sorted((str(a), str(b)) for a, b in getattr(O, '_NOT_STYLE_STYLE_REFERENCES', ()))
+    on = sorted(((str(e[0]), str(e[1])), (str(a[0]), str(a[1]))) for e, a in getattr(O, '_NOT_STYLE_STYLE_REFERENCES_ON', ()))
+    # the table build_caches consults: fail closed if it is not the one exported above
+    src = open(O.__file__.replace('.pyc', '.py'), encoding='utf-8').read()
+    tree = ast.parse(src)
+    used = set()
+    for fn in ast.walk(tree):
+        if isinstance(fn, ast.FunctionDef) and fn.name == 'build_caches':
+            for t in ast.walk(fn):
+                if isinstance(t, ast.Name) and t.id.startswith('_') and t.id.isupper(): used.add(t.id)
+    return ex, on, sorted(used)
+
 def gen():
-    sc = scanned(); sm = schema()
+    sc = scanned(); sm = schema(); ex, on, used = redirect_exclusions()
     v = HEADER + '''
 (* style reference attributes scanned by the working tree when it selects automatic styles *)
 Definition scanned_refattrs : list (list N * list N) :=
@@ -48,5 +63,14 @@ Definition scanned_refattrs : list (list N * list N) :=
 (* attributes of type styleNameRef / styleNameRefs in grammar/OpenDocument-schema-v1.2-cd04.rng *)
 Definition schema_refattrs : list (list N * list N) :=
 %s.
-''' % (wrap([cpair(cstr(a), cstr(b)) for a, b in sc], 1), wrap([cpair(cstr(a), cstr(b)) for a, b in sm], 1))
-    yield 'GenStyleRefs.v', v, {'scanned': sc, 'schema': sm}
+
+(* reference attributes the loader leaves alone after a rename (opendocument._NOT_STYLE_STYLE_REFERENCES) *)
+Definition redirect_excluded : list (list N * list N) :=
+%s.
+
+(* (element, attribute) pairs the loader leaves alone after a rename (opendocument._NOT_STYLE_STYLE_REFERENCES_ON) *)
+Definition redirect_excluded_on : list ((list N * list N) * (list N * list N)) :=
+%s.
+''' % (wrap([cpair(cstr(a), cstr(b)) for a, b in sc], 1), wrap([cpair(cstr(a), cstr(b)) for a, b in sm], 1),
+       wrap([cpair(cstr(a), cstr(b)) for a, b in ex], 1), wrap([cpair(cpair(cstr(e[0]), cstr(e[1])), cpair(cstr(a[0]), cstr(a[1]))) for e, a in on], 1))
+    yield 'GenStyleRefs.v', v, {'scanned': sc, 'schema': sm, 'redirect_excluded': ex, 'redirect_excluded_on': [[list(e), list(a)] for e, a in on], 'build_caches_tables': used}
